@@ -29,7 +29,9 @@ var c16OptCombos = []nycttrips.ExtensionOpts{
 var c16Assigned = []string{"absent", "false", "true"}
 var c16Dirs = []string{"absent", "NORTH", "EAST", "SOUTH", "WEST"}
 var c16Tracks = []string{"none", "scheduled", "actual", "both", "empty-extension"}
-var c16First = []string{"no-stops", "no-times", "dep<", "dep=", "dep>", "arr-only<", "arr-only=", "arr-only>", "dep>arr<", "dep<arr>"}
+var c16First = []string{"no-stops", "no-times", "dep<", "dep=", "dep>", "arr-only<", "arr-only=", "arr-only>", "dep>arr<", "dep<arr>",
+	// a departure EVENT without a time (delay only / empty): the departure time is missing, so the arrival time decides
+	"dep-delay-only+arr<", "dep-delay-only+arr=", "dep-delay-only+arr>", "dep-empty+arr>", "dep-empty+arr<", "dep-delay-only+no-arr", "arr-delay-only+dep>", "arr-empty+dep<"}
 var c16IDs = []string{"nyct-format", "other-format"}
 
 func c16TableSize() int {
@@ -134,11 +136,34 @@ func c16Stops(first, tracks string, r *core.Rand) []*gtfsrt.TripUpdate_StopTimeU
 	case "dep<arr>":
 		u0.Departure = ev(ts - 30)
 		u0.Arrival = ev(ts + 30)
+	case "dep-delay-only+arr<":
+		u0.Departure = &gtfsrt.TripUpdate_StopTimeEvent{Delay: rgen.I32(30)}
+		u0.Arrival = ev(ts - 1)
+	case "dep-delay-only+arr=":
+		u0.Departure = &gtfsrt.TripUpdate_StopTimeEvent{Delay: rgen.I32(30)}
+		u0.Arrival = ev(ts)
+	case "dep-delay-only+arr>":
+		u0.Departure = &gtfsrt.TripUpdate_StopTimeEvent{Delay: rgen.I32(30), Uncertainty: rgen.I32(1)}
+		u0.Arrival = ev(ts + 1)
+	case "dep-empty+arr>":
+		u0.Departure = &gtfsrt.TripUpdate_StopTimeEvent{}
+		u0.Arrival = ev(ts + 1)
+	case "dep-empty+arr<":
+		u0.Departure = &gtfsrt.TripUpdate_StopTimeEvent{}
+		u0.Arrival = ev(ts - 1)
+	case "dep-delay-only+no-arr":
+		u0.Departure = &gtfsrt.TripUpdate_StopTimeEvent{Delay: rgen.I32(30)}
+	case "arr-delay-only+dep>":
+		u0.Arrival = &gtfsrt.TripUpdate_StopTimeEvent{Delay: rgen.I32(30)}
+		u0.Departure = ev(ts + 1)
+	case "arr-empty+dep<":
+		u0.Arrival = &gtfsrt.TripUpdate_StopTimeEvent{}
+		u0.Departure = ev(ts - 1)
 	}
 	out := []*gtfsrt.TripUpdate_StopTimeUpdate{u0}
 	// later stops never matter for staleness: give them times on the other side
 	u1 := mk(1)
-	if first == "dep<" || first == "arr-only<" || first == "no-times" || first == "dep<arr>" {
+	if c16Stale(first) {
 		u1.Departure = ev(ts + 500)
 		u1.Arrival = ev(ts + 400)
 	} else {
@@ -149,7 +174,7 @@ func c16Stops(first, tracks string, r *core.Rand) []*gtfsrt.TripUpdate_StopTimeU
 
 func c16Stale(first string) bool {
 	switch first {
-	case "no-stops", "no-times", "dep<", "arr-only<", "dep<arr>":
+	case "no-stops", "no-times", "dep<", "arr-only<", "dep<arr>", "dep-delay-only+arr<", "dep-empty+arr<", "dep-delay-only+no-arr", "arr-empty+dep<":
 		return true
 	}
 	return false
